@@ -61,6 +61,21 @@ def cases(tier, seed):
                                         for exc in EXCS:
                                             out.append({"id": [si, sid, req, k, kind, transport, lazy, exc], "scn": S.normalize(scn), "seed": rng.randrange(10**6),
                                                         "behaviour": {"kind": "faultplan", "plan": dict(plan, exc=exc), "p_event": 0.8, "ev_next": [None, 1]}, "policy": pol})
+    # mixed transports: an in-process simulator whose finalize() takes 11 s of (virtual) wall-clock time, started BEFORE a remote one
+    # and a third one - however long one simulator needs to finish, the others still receive stop exactly once
+    for si in (0, 1, 3):
+        base = SCENARIOS[si]
+        sids = [x["sid"] for x in base["sims"]]
+        tr = dict(zip(sids, ["local", "remote", "async"]))
+        for fsid in sids:
+            has_out = any(c["src"] == fsid for c in base["conns"])
+            for req, k in [("step", 1), ("step", 2)] + ([("get_data", 1)] if has_out else []):
+                kind = "eof" if tr[fsid] == "remote" else "raise"
+                scn = dict(base, sims=[dict(x, transport=tr[x["sid"]], **({"slow_finalize": 11.0} if tr[x["sid"]] == "local" else {})) for x in base["sims"]])
+                plan = {"sid": fsid, "req": req, "k": k, "kind": kind}
+                for pi, pol in enumerate([{"kind": "fifo"}, {"kind": "random", "early": 0.5}]):
+                    out.append({"id": [si, fsid, req, k, kind, "mixed_slow_finalize", pi], "scn": S.normalize(scn), "seed": rng.randrange(10**6),
+                                "behaviour": {"kind": "faultplan", "plan": plan, "p_event": 0.8, "ev_next": [None, 1]}, "policy": pol})
     return out
 
 
